@@ -58,7 +58,7 @@ const (
 	opFor            // for { Body }
 	opWhile          // for Cond { Body }
 	opCFor           // for Name = 0; Name < N; Name++ { Body }
-	opForIn          // for Name in Vals { Body }
+	opForIn          // for Name in Vals { Body }   or, over a single-entry map,  for Name[, Name2] in {MapKey: Vals[0]} { Body }
 	opBreak
 	opContinue
 	opReturn
@@ -94,6 +94,9 @@ type stmt struct {
 	HeadFn *fnlit
 	CaseFn *fnlit
 	InitFn *fnlit
+	// for-in over a map with one entry: Name is the key variable, Name2 (may be empty) the value variable
+	MapKey string
+	Name2  string
 }
 
 // ---------- rendering to anko source ----------
@@ -178,6 +181,14 @@ func render(b []*stmt, ind string) string {
 			}
 			fmt.Fprintf(&sb, "for %s = 0; %s < %d; %s++ {\n%s%s}", s.Name, s.Name, s.N, s.Name, render(s.Body, in2), ind)
 		case opForIn:
+			if s.MapKey != "" {
+				vars := s.Name
+				if s.Name2 != "" {
+					vars += ", " + s.Name2
+				}
+				fmt.Fprintf(&sb, "for %s in {\"%s\": %d} {\n%s%s}", vars, s.MapKey, s.Vals[0], render(s.Body, in2), ind)
+				break
+			}
 			var vs []string
 			for _, v := range s.Vals {
 				vs = append(vs, strconv.FormatInt(v, 10))
@@ -268,7 +279,8 @@ func (r reso) dims() [nDims]int {
 // ---------- the reference interpreter ----------
 
 type mval struct {
-	k   byte // 'i' int, 'f' function, 'm' module, 'e' error value, 'z' nil
+	k   byte // 'i' int, 's' string, 'f' function, 'm' module, 'e' error value, 'z' nil
+	str string
 	n   int64
 	fn  *mfunc
 	mod *mscope
@@ -333,6 +345,8 @@ func show(v mval, ok bool) string {
 	switch v.k {
 	case 'i':
 		return strconv.FormatInt(v.n, 10)
+	case 's':
+		return v.str
 	case 'f':
 		return "F"
 	case 'm':
@@ -569,14 +583,25 @@ func (m *machine) exec(st *stmt, s *mscope) sig {
 		return m.loop(st, cnd, post, body, -1)
 	case opForIn:
 		hdr := newScope(s)
+		// the loop variables always bind in the loop's block (never update an outer binding)
+		bind := func(sc *mscope, i int) {
+			if st.MapKey != "" {
+				sc.v[st.Name] = mval{k: 's', str: st.MapKey}
+				if st.Name2 != "" {
+					sc.v[st.Name2] = mval{k: 'i', n: st.Vals[i]}
+				}
+				return
+			}
+			sc.v[st.Name] = mval{k: 'i', n: st.Vals[i]}
+		}
 		var body func(i int) *mscope
 		switch m.R.LoopI {
 		case 0:
-			body = func(i int) *mscope { hdr.v[st.Name] = mval{k: 'i', n: st.Vals[i]}; return hdr }
+			body = func(i int) *mscope { bind(hdr, i); return hdr }
 		case 1:
-			body = func(i int) *mscope { it := newScope(s); it.v[st.Name] = mval{k: 'i', n: st.Vals[i]}; return it }
+			body = func(i int) *mscope { it := newScope(s); bind(it, i); return it }
 		default:
-			body = func(i int) *mscope { hdr.v[st.Name] = mval{k: 'i', n: st.Vals[i]}; return newScope(hdr) }
+			body = func(i int) *mscope { bind(hdr, i); return newScope(hdr) }
 		}
 		return m.loop(st, nil, nil, body, len(st.Vals))
 	case opBreak:
